@@ -431,6 +431,16 @@ func AtomUnits() []*Unit {
 		us = append(us, b.Unit())
 	}
 	{
+		// the extension's message type has required fields (one of them behind an optional one in field-number order)
+		b, base := extUnit("p2extreq", "ext-required", "extension-message-with-required-fields")
+		leaf := b.Msg("ReqLeaf")
+		leaf.F("may", 1, String, Optional).F("must", 2, Int32, Required).F("also", 3, String, Required)
+		h := b.Msg("Holder")
+		h.Ext("x_leaf", 100, Message, Optional, leaf.Full(), base.Full())
+		h.Ext("x_leaves", 101, Message, Repeated, leaf.Full(), base.Full())
+		us = append(us, b.Unit())
+	}
+	{
 		b, base := extUnit("p2extenum", "ext-enum", "extension-enum")
 		col := addColorEnum(b)
 		b.Msg("Holder").Ext("x_color", 100, Enum, Optional, col.Full(), base.Full())
